@@ -265,3 +265,131 @@ func H_c02_prepare() {
 	}
 	verif_witness()
 }
+
+// UTF-16LE encoding of ASCII text with the terminating NUL, as x/text produces it for the
+// characters the harness uses (the real encoder is a table-driven transformer).
+//
+//verif:stub-if c02fs Havoc/pkg/common.EncodeUTF16
+func verifStubEncodeUTF16Agent(s string) []byte {
+	var out []byte
+	for i := 0; i < len(s); i++ {
+		out = append(out, s[i], 0)
+	}
+	if len(s) == 0 || s[len(s)-1] != 0 {
+		out = append(out, 0, 0)
+	}
+	return out
+}
+
+func verifWide(s string) []byte {
+	var out []byte
+	for i := 0; i < len(s); i++ {
+		out = append(out, s[i], 0)
+	}
+	return append(out, 0, 0)
+}
+
+// verifFsBody appends one field the way the Demon's parser reads it: I = 32-bit little
+// endian integer, W = length-prefixed wide string.
+func verifFsInt(b []byte, v uint32) []byte {
+	return append(b, byte(v), byte(v>>8), byte(v>>16), byte(v>>24))
+}
+func verifFsWide(b []byte, s string) []byte {
+	w := verifWide(s)
+	return append(verifFsInt(b, uint32(len(w))), w...)
+}
+
+// H_c02_fs: the file-system commands reach the agent as issued: for cd / remove / mkdir / pwd /
+// dir (console form with its four flags and three filters) / dir (file-explorer form) the
+// task body equals what the Demon's CommandFS reads field by field (Command.c l.675: I
+// sub-command; dir: I explorer flag, W path, I sub-dirs, I files-only, I dirs-only, I
+// list-only, W starts, W contains, W ends; cd/remove/mkdir: W path; pwd: nothing), for paths
+// made of a drive prefix and two arbitrary printable characters. A directory path that ends
+// in a backslash or is a bare drive gets the wildcard the Demon's FindFirstFile needs.
+func H_c02_fs() {
+	ts, A, _, _ := verifStateS()
+	sub := nondet_choice("fs-sub", 6)
+	tail := nondet_bytes("path-tail", 2)
+	for _, c := range tail {
+		verif_assume(c >= 0x20)
+		verif_assume(c < 0x7f)
+		verif_assume(c != ';') // the client separates the fields of "dir" with semicolons
+	}
+	path := "C:" + string(tail)
+	info := map[string]any{"TaskID": "0000000d"}
+	var want []byte
+	dirPath := path
+	if tail[1] == '\\' {
+		dirPath = path + "*"
+	} else if tail[1] == ':' {
+		dirPath = path + "\\*"
+	}
+	flags := []bool{nondet_bool("subdirs"), nondet_bool("files-only"), nondet_bool("dirs-only"), nondet_bool("list-only")}
+	fl := func(b bool) string {
+		if b {
+			return "true"
+		}
+		return "false"
+	}
+	fi := func(b bool) uint32 {
+		if b {
+			return 1
+		}
+		return 0
+	}
+	switch sub {
+	case 0:
+		info["SubCommand"], info["Arguments"] = "cd", path
+		want = verifFsWide(verifFsInt(nil, 4), path)
+	case 1:
+		info["SubCommand"], info["Arguments"] = "remove", path
+		want = verifFsWide(verifFsInt(nil, 5), path)
+	case 2:
+		info["SubCommand"], info["Arguments"] = "mkdir", path
+		want = verifFsWide(verifFsInt(nil, 6), path)
+	case 3:
+		info["SubCommand"], info["Arguments"] = "pwd", ""
+		want = verifFsInt(nil, 9)
+	case 4:
+		info["SubCommand"] = "dir"
+		info["Arguments"] = path + ";" + fl(flags[0]) + ";" + fl(flags[1]) + ";" + fl(flags[2]) + ";" + fl(flags[3]) + ";st;co;en"
+		want = verifFsInt(nil, 1)
+		want = verifFsInt(want, 0)
+		want = verifFsWide(want, dirPath)
+		for k := 0; k < 4; k++ {
+			want = verifFsInt(want, fi(flags[k]))
+		}
+		want = verifFsWide(verifFsWide(verifFsWide(want, "st"), "co"), "en")
+	case 5:
+		info["SubCommand"], info["Arguments"] = "dir;ui", path
+		want = verifFsInt(nil, 1)
+		want = verifFsInt(want, 1)
+		want = verifFsWide(want, dirPath)
+		for k := 0; k < 4; k++ {
+			want = verifFsInt(want, 0)
+		}
+		want = verifFsWide(verifFsWide(verifFsWide(want, ""), ""), "")
+	}
+	msg := map[string]string{}
+	job, err := A.TaskPrepare(COMMAND_FS, info, &msg, "", ts)
+	verif_assert(err == nil, "a well-formed file-system command is accepted")
+	if err != nil || job == nil {
+		return
+	}
+	A.AddJobToQueue(*job)
+	reply := BuildPayloadMessage(A.GetQueuedJobs(), A.Encryption.AESKey, A.Encryption.AESIv)
+	task := verifDecodeOneTask(reply, A.Encryption.AESKey, A.Encryption.AESIv)
+	verif_assert(task.OK, "the check-in reply holds exactly one well-formed task")
+	if !task.OK {
+		return
+	}
+	verif_assert(task.Cmd == COMMAND_FS, "the agent sees the operator's command")
+	verif_assert(task.Rid == 0xd, "the request id is the operator's task id")
+	verif_assert(len(task.Body) == len(want), "the task body holds exactly the fields the Demon reads")
+	if len(task.Body) == len(want) {
+		for i := range want {
+			verif_assert(task.Body[i] == want[i], "every field read by the Demon's CommandFS equals the operator's parameter")
+		}
+	}
+	verif_witness()
+}
